@@ -374,6 +374,14 @@ fn _unused<S: Strategy>(s: S, r: &mut TestRunner) {
 
 // ---------------------------------------------------------------------------------------
 
+fn build_label() -> &'static str {
+    match (vp_core::ZEROIZE, cfg!(debug_assertions)) {
+        (true, _) => "mode crates built with their zeroize feature; debug assertions and overflow checks on",
+        (false, true) => "default features; debug assertions and overflow checks on",
+        (false, false) => "default features; as shipped (no debug assertions, wrapping arithmetic)",
+    }
+}
+
 fn write_replay(root: &Path, id: &str, seed: u64, f: &Failure) -> PathBuf {
     let dir = root.join("replays");
     let _ = std::fs::create_dir_all(&dir);
@@ -383,7 +391,7 @@ fn write_replay(root: &Path, id: &str, seed: u64, f: &Failure) -> PathBuf {
         "property": id,
         "engine": f.engine,
         "seed": seed,
-        "build": if vp_core::ZEROIZE { "mode crates built with their zeroize feature" } else { "default features" },
+        "build": build_label(),
         "tape": hex(&f.tape),
         "decoded": f.desc,
         "sig": f.v.sig,
@@ -594,6 +602,7 @@ fn main() {
                 "cipher_configs": ctx.suites().count(),
                 "libfuzzer_executions": args.fuzz_executed.unwrap_or(0),
                 "zeroize_build": vp_core::ZEROIZE,
+                "build": build_label(),
             },
             "assumptions": p.assumptions,
             "wall_s": wall,
